@@ -179,8 +179,24 @@ package syntax
 //@   inv 1 [C01] unchanged: ctx.Path == old(ctx.Path) && ctx.params == old(ctx.params) && dom(ctx.params) == old(dom(ctx.params)) &&
 //@        (forall x string :: ctx.params[x] == old(ctx.params[x]))
 //
+// URL building (C10): the text appended for the first k segments - literal text as it is, a parameter token
+// replaced by its value followed by the token's literal suffix
+//@ pred piece(s *Segment, ps map[string]string) = (s.Type == 0) ? s.Value : (ps[s.Name] + s.Suffix)
+//@ opaque pred inst(segs []*Segment, k int, ps map[string]string) string = (k <= 0) ? "" : (inst(segs, k - 1, ps) + piece(segs[k - 1], ps))
+//
 //@ fn Interceptors.URL
 //@   requires icOK(i) && buf != nil
+//@   modifies strings.Builder.text: buf.Builder
+//@   ensures [C10] empty: pattern == "" ==> result == nil && buf.Builder.text == old(buf.Builder.text)
+//@   ensures [C10] substituted: result == nil && pattern != "" ==> buf.Builder.text == old(buf.Builder.text) +
+//@        inst(callresult("syntax.Interceptors.Split", 1, 0), len(callresult("syntax.Interceptors.Split", 1, 0)), ps)
+//@   ensures [C10] fails-iff-missing: pattern != "" && callresult("syntax.Interceptors.Split", 1, 1) == nil ==>
+//@        (result == nil <==> (forall k int :: 0 <= k && k < len(callresult("syntax.Interceptors.Split", 1, 0)) && callresult("syntax.Interceptors.Split", 1, 0)[k].Type != 0 ==>
+//@           in(callresult("syntax.Interceptors.Split", 1, 0)[k].Name, ps)))
+//@   ensures [C10] malformed: pattern != "" && callresult("syntax.Interceptors.Split", 1, 1) != nil ==> result != nil
+//@   inv 1 [C10] bound: -1 <= rangeindex && rangeindex < len(segs) && segs == callresult("syntax.Interceptors.Split", 1, 0) && unchanged("strings.Builder.text", buf.Builder)
+//@   inv 1 [C10] so-far: buf.Builder.text == old(buf.Builder.text) + inst(segs, rangeindex + 1, ps)
+//@   inv 1 [C10] present: forall k int :: 0 <= k && k <= rangeindex && segs[k].Type != 0 ==> in(segs[k].Name, ps)
 //
 //@ fn NewInterceptors
 //@   nopanic
